@@ -1,4 +1,42 @@
+/-
+C12 — Pruning removes only unreachable objects and leaves every ref fully usable.
+Property theorems only. Model: Model/Prune.lean (pkg/prune/prune.go over CommitsQueue).
+Spec: `pruneVerdict` (the decidable predicate the driver also evaluates on the real before/after
+key sets) and `reachableCommits` (mark-and-sweep from all refs).
+-/
 import WrglModel.Model.Prune
+import WrglModel.Lemmas.C12
+import WrglModel.Gen.Facts
 namespace Wrgl
-theorem C12_placeholder : True := trivial
+
+/-- tie to the source: every `sort.Search` result in pruneTables is compared with the key -/
+theorem C12_fact_searchChecked : Facts.pruneSearchChecked = true := by decide
+
+/-- Prune completes without crashing on ANY repository state — shallow commits whose tables were
+    never fetched, tables with missing blocks, refs to missing commits included. -/
+theorem C12_no_panic (r : PRepo) (refs : List Nat) (p : String) : prune Facts.pruneSearchChecked r refs ≠ .panic p := by
+  rw [C12_fact_searchChecked]; exact prune_never_panics r refs p
+
+theorem C12_completes (r : PRepo) (hok : r.OK) (refs : List Nat) : ∃ r', prune Facts.pruneSearchChecked r refs = .ok r' := by
+  rw [C12_fact_searchChecked]; exact prune_completes r hok refs
+
+/-- The marked commits are exactly those reachable from a ref (of any kind) through parent links. -/
+theorem C12_mark_exact (r : PRepo) (hok : r.OK) (refs : List Nat) (found : List Nat)
+    (h : markLoop r.commits (r.commits.length + 2) (insertRefs r.commits { items := [], seen := [] } refs) [] = .ok found) :
+    ∀ a, a ∈ found ↔ ∃ b ∈ refs, (r.commits.get? b).isSome = true ∧ Reach r.commits a b :=
+  mark_spec r hok refs found h
+
+/-- Every reachable commit is kept together with its table, table index, profile, blocks and block
+    indices wherever those existed before; every unreachable commit is gone, as are tables
+    referenced only by removed commits and blocks referenced only by removed tables; nothing is
+    created. -/
+theorem C12_reachable_kept_unreachable_gone (r : PRepo) (hok : r.OK) (refs : List Nat) (r' : PRepo)
+    (h : prune Facts.pruneSearchChecked r refs = .ok r') : pruneVerdict r r' refs = [] := by
+  rw [C12_fact_searchChecked] at h; exact prune_meets_spec r hok refs r' h
+
+/-- Repeated prune changes nothing. -/
+theorem C12_idempotent (r : PRepo) (hok : r.OK) (refs : List Nat) (r' : PRepo)
+    (h : prune Facts.pruneSearchChecked r refs = .ok r') : prune Facts.pruneSearchChecked r' refs = .ok r' := by
+  rw [C12_fact_searchChecked] at h ⊢; exact prune_idempotent r hok refs r' h
+
 end Wrgl
